@@ -2,11 +2,15 @@
    Proofs/TotalProofs.v.  [total r]: the model returned a value (not Panic, not OutOfFuel).  In the model
    every Go panic source is an explicit Panic result (nil dereference, index out of range in the power
    and digit tables, "unexpected negative" in roundAddOne, math/big division by zero) and every loop has
-   explicit fuel.  PARTIAL with respect to the Go runtime and to the iterative functions, which are not
-   modelled: see the evidence for how the implementation itself is exercised (recover + watchdog). *)
+   explicit fuel.  Covered: NumDigits, Cmp, CmpTotal, Modf, Reduce, Int64, and every single-rounding Context
+   operation (Round, Abs, Neg, Add, Sub, Mul, Quo, QuoInteger, Rem, Quantize, RoundToIntegral*, Ceil, Floor,
+   Reduce) inside the limits of its functional theorem, and the parsers on EVERY byte string.
+   PARTIAL with respect to the Go runtime and to the iterative functions (Sqrt and Cbrt are modelled with explicit
+   fuel but no termination theorem is proven; Exp, Ln, Log10, Pow are not modelled): see the evidence for how the
+   implementation itself is exercised (recover + watchdog). *)
 From Coq Require Import ZArith Bool.
 From Apd Require Import Generated.Consts Model.Base Model.NumDigits Model.Decimal Model.Context Model.Text Model.Conv Spec.SpecZ
-  Proofs.Core Proofs.SetExponent Proofs.RoundSpec Proofs.OpsProofs Proofs.TotalProofs Proofs.Accept.
+  Proofs.Core Proofs.SetExponent Proofs.RoundSpec Proofs.OpsProofs Proofs.OpsProjections Proofs.DivProofs Proofs.QuantizeProofs Proofs.QuantizeMid Proofs.CeilFloor Proofs.TotalProofs Proofs.Accept Proofs.TotalMore.
 Open Scope Z_scope.
 
 Theorem C04_numdigits_total est : est_in_range est -> forall b, total (num_digits_with est b).
@@ -44,6 +48,41 @@ Theorem C04_quo_integer_total est : est_in_range est -> forall c x y, 1 <= prec 
   Z.abs (exp x - exp y) <= MaxExponent -> total (ctx_quo_integer est c x y).
 Proof. exact (quo_integer_total est). Qed.
 Print Assumptions C04_quo_integer_total.
+
+(* the remaining modelled operations, inside the limits under which their functional theorems hold *)
+Theorem C04_mul_total est : est_in_range est -> forall c x y, mul_hyps c x y -> total (ctx_mul est c x y).
+Proof. exact (mul_total est). Qed.
+Print Assumptions C04_mul_total.
+Theorem C04_quo_total est : est_in_range est -> forall c x y, quo_hyps c x y -> total (ctx_quo est c x y).
+Proof. exact (quo_total est). Qed.
+Print Assumptions C04_quo_total.
+Theorem C04_rem_total est : est_in_range est -> forall c x y, ctx_ok c -> finite_nn x -> finite_nn y -> coeff y <> 0 ->
+  Z.abs (exp x - exp y) <= MaxExponent ->
+  exact_in_limits c (mkExact (neg x) (al_a x y mod al_b x y) 1 (al_exp x y)) -> total (ctx_rem est c x y).
+Proof. exact (rem_total est). Qed.
+Print Assumptions C04_rem_total.
+Theorem C04_quantize_total est : est_in_range est -> forall c x e, ctx_ok c -> form_of x = Finite -> 0 <= coeff x ->
+  exp x - e < MaxExponent -> e - exp x < MaxExponent -> ndigits (coeff x) < MaxExponent ->
+  in_lim e -> in_lim (e + ndigits (quant_coeff (rounding c) x e) - 1) -> total (ctx_quantize est c x e).
+Proof. exact (quantize_total est). Qed.
+Print Assumptions C04_quantize_total.
+Theorem C04_round_to_integral_total est : est_in_range est -> forall c x, form_of x = Finite -> 0 <= coeff x ->
+  exp x < MaxExponent -> - exp x < MaxExponent -> ndigits (coeff x) < MaxExponent ->
+  total (ctx_rti_exact est c x) /\ total (ctx_rti_value est c x).
+Proof. exact (rti_total est). Qed.
+Print Assumptions C04_round_to_integral_total.
+Theorem C04_ceil_floor_total est : est_in_range est -> forall c x, ctx_ok c -> finite_nn x ->
+  ndigits (int_part x + 1) < MaxExponent -> total (ctx_ceil est c x) /\ total (ctx_floor est c x).
+Proof. exact (ceil_floor_total est). Qed.
+Print Assumptions C04_ceil_floor_total.
+Theorem C04_context_reduce_total est : est_in_range est -> forall c x, ctx_ok c -> finite_nn x ->
+  exact_in_limits c (exact_of_dec x) -> total (ctx_reduce est c x).
+Proof. exact (ctx_reduce_total est). Qed.
+Print Assumptions C04_context_reduce_total.
+(* the parsers never panic, on ANY byte string *)
+Theorem C04_new_from_string_total est : est_in_range est -> forall s, total (new_from_string est s).
+Proof. exact (new_from_string_total est). Qed.
+Print Assumptions C04_new_from_string_total.
 
 (* text can never produce an ill-formed value *)
 Theorem C04_parsed_value_well_formed s d : set_string_raw s = Some d ->
